@@ -249,6 +249,22 @@ class C18(runner.Prop):
         got = [kv[0] for kv in optree.utils.total_order_sorted(items, key=lambda kv: kv[0])]
         if len(got) != len(want) or any(a is not b for a, b in zip(got, want)):
             ctx.fail('sort/python_twin_key', f'{got!r} expected {want!r}')
+        if case.get('reverse'):
+            # reverse=True: the same three-stage rule with the order reversed (stable), insertion order when unsortable
+            def qual(x):
+                return (f'{x.__class__.__module__}.{x.__class__.__qualname__}', x)
+            try:
+                want_rev = sorted(keys, reverse=True)
+            except TypeError:
+                try:
+                    want_rev = sorted(keys, key=qual, reverse=True)
+                except TypeError:
+                    want_rev = list(keys)
+            for tag, got_rev in (('reverse', optree.utils.total_order_sorted(list(keys), reverse=True)),
+                                 ('reverse_key', [kv[0] for kv in optree.utils.total_order_sorted(items, key=lambda kv: kv[0], reverse=True)])):
+                if len(got_rev) != len(want_rev) or any(a is not b for a, b in zip(got_rev, want_rev)):
+                    ctx.fail(f'sort/python_twin_{tag}', f'{got_rev!r} expected {want_rev!r}')
+            ctx.label('sort_reverse')
         one = optree.tree_flatten_one_level(dict.fromkeys(keys, 0)) if keys else None
         if one is not None and (len(one.entries) != len(want) or any(a is not b for a, b in zip(one.entries, want))):
             ctx.fail('sort/python_one_level', f'{one.entries!r} expected {want!r}')
